@@ -111,6 +111,9 @@ def x_type(sc: Dict[str, Any]) -> str:
         "list_cls": "List[Item]",
         "list_acls": "List[Item]",
         "list_ccls": "List[Item]",
+        "stub": "Stub",
+        "list_stub": "List[Stub]",
+        "cstub": "Item",
         "list_cprim": "List[Cp]",
     }[k]
     return "Optional[%s]" % t if sc["opt"] else t
@@ -178,6 +181,11 @@ def render_scenario(sc: Dict[str, Any]) -> Tuple[str, str]:
         items.append({"kind": "class", "name": "Twin", "props": [{"name": "y", "type": "Cp"}]})
     if kind == "list_cls":
         items.append({"kind": "class", "name": "Item", "props": [{"name": "n", "type": "int"}]})
+    if kind in ("stub", "list_stub"):
+        items.append({"kind": "class", "name": "Stub", "abstract": True, "props": [{"name": "n", "type": "int"}]})
+    if kind == "cstub":
+        items.append({"kind": "class", "name": "Item", "wmt": True, "props": [{"name": "n", "type": "int"}]})
+        items.append({"kind": "class", "name": "Item_stub", "abstract": True, "bases": ["Item"], "props": []})
     if kind == "list_ccls":
         items.append({"kind": "class", "name": "Item", "wmt": True, "props": [{"name": "n", "type": "int"}]})
         items.append({"kind": "class", "name": "Item_b", "bases": ["Item"], "props": []})
@@ -215,6 +223,7 @@ def render_scenario(sc: Dict[str, Any]) -> Tuple[str, str]:
 # values
 # ---------------------------------------------------------------------------------------------
 
+STUB_KINDS = ("stub", "list_stub", "cstub")
 LIST_KINDS = ("list_str", "list_cls", "list_acls", "list_ccls", "list_cprim")
 
 
@@ -226,6 +235,8 @@ def values_for(sc: Dict[str, Any], max_len: int, max_str: int, max_strings: int)
     """The candidate values of a scenario (data only; what they mean is decided by the spec in the V phase)."""
     out: List[Dict[str, Any]] = []
     kind = sc["kind"]
+    if kind in STUB_KINDS:
+        return out
     if sc["fam"] == "len":
         for inst in range(sc["pa"], sc["L"] + 1):
             if kind == "int":
@@ -399,14 +410,25 @@ def run_scenario(sc: Dict[str, Any], scratch: pathlib.Path, opts: Dict[str, Any]
                            "gen": "ok", "detail": "", "loads10": False, "loads11": False, "load_err": "", "xpats": [], "shapes": [], "vals": [], "muts": [], "ptexts": [], "sdk_excs": []}
     text, root_snippet = render_scenario(sc)
     obs["ptexts"] = [pattern_text(p["tree"]) for p in sc["pats"]]
-    # Python SDK first: tells whether the meta-model is accepted at all
-    sdk = mm.generate_python_sdk(text, scratch / "py")
-    if sdk["rc"] != 0 or sdk.get("import_errors") or not all(k in sdk["mods"] for k in ("types", "verification", "xmlization")):
+    stub = sc["kind"] in STUB_KINDS
+    if stub:
+        # nothing can be instantiated: ask the front end alone whether the meta-model is accepted, then judge the schema only
+        lm = mm.load_model(text, scratch / "lm")
+        if lm["outcome"] != "accepted":
+            obs["gen"] = "model_rejected"
+            obs["detail"] = (str(lm.get("error")) + " " + json.dumps(lm.get("exc")))[:700]
+            return obs
+        sdk = {"mods": {}, "pkg": None}
+        T = V = X = None
+    else:
+        sdk = mm.generate_python_sdk(text, scratch / "py")
+    if not stub and (sdk["rc"] != 0 or sdk.get("import_errors") or not all(k in sdk["mods"] for k in ("types", "verification", "xmlization"))):
         obs["gen"] = "model_rejected"
         obs["detail"] = ((sdk["stderr"] or "")[-400:] + " " + json.dumps(sdk.get("exc")) + " " + json.dumps(sdk.get("import_errors")))[:700]
         mm.drop_sdk(sdk)
         return obs
-    T, V, X = sdk["mods"]["types"], sdk["mods"]["verification"], sdk["mods"]["xmlization"]
+    if not stub:
+        T, V, X = sdk["mods"]["types"], sdk["mods"]["verification"], sdk["mods"]["xmlization"]
     # the XSD generator
     _FIRED[0] = False
     old = signal.signal(signal.SIGALRM, _alarm)
